@@ -283,6 +283,9 @@ func defGenericMethod(s *slip.Scope, fname slip.Symbol, args slip.List, aux *Aux
 		}
 		args = args[1:]
 	}
+	if len(args) == 0 {
+		slip.ErrorPanic(s, depth, "defmethod %s has no specialized lambda list.", fname)
+	}
 	ll, ok := args[0].(slip.List)
 	if !ok {
 		slip.TypePanic(s, depth, "specialize-lambda-list", args[0], "list")
